@@ -71,20 +71,23 @@ func genSecret(r *lib.RNG, role string, forbid string, k int) secret {
 }
 
 type conf struct {
-	idx      int
-	channel  string // flags | env | yaml | json
-	level    string
-	format   string
-	logFile  bool
-	logHTTP  string
-	mitm     bool
-	tlsProto bool
-	secrets  []secret
-	keyMat   []string // inline data: payloads (base64 text) that must not appear
+	idx     int
+	channel string // flags | env | yaml | json
+	level   string
+	format  string
+	logFile bool
+	logHTTP string
+	// multiHTTP: --log-http carries two entries, the proxy module's listed mode first and a more
+	// verbose one for the API module after it (each module must keep its own mode)
+	multiHTTP bool
+	mitm      bool
+	tlsProto  bool
+	secrets   []secret
+	keyMat    []string // inline data: payloads (base64 text) that must not appear
 }
 
 func main() {
-	run := lib.Start("C19", "the real binary run with generated secrets (16-20 characters, each of 27 special characters in turn incl. : @ / ? # % & + = space quotes backslash $ backtick) in --basic-auth, --api-basic-auth, --proxy userinfo, several --credentials entries and inline data: key material (--tls-key-file, --mitm-cakey-file, --cacert-file), supplied as flags / FORWARDER_* environment / YAML / JSON config file, at log levels error, info, debug x formats text, json x stdout or --log-file x --log-http none, short-url, url, errors; traffic: authenticated request via the upstream proxy, request with site credentials, CONNECT + MITM request, 407, 403, 502 error responses, /configz; everything printed, logged, served or returned is scanned for each secret in raw, URL-escaped, quoted and base64 (std, url, 3 alignments) forms and for 24-character windows of key material; non-secret companions must be visible; distinct = (channel, level, format, log target, log-http mode, special character) signatures")
+	run := lib.Start("C19", "the real binary run with generated secrets (16-20 characters, each of 27 special characters in turn incl. : @ / ? # % & + = space quotes backslash $ backtick) in --basic-auth, --api-basic-auth, --proxy userinfo, several --credentials entries and inline data: key material (--tls-key-file, --mitm-cakey-file, --cacert-file), supplied as flags / FORWARDER_* environment / YAML / JSON config file, at log levels error, info, debug x formats text, json x stdout or --log-file x --log-http none, short-url, url, errors (in a third of the configurations as 'proxy:<mode>,api:headers|body', each module keeping its own mode); traffic: authenticated request via the upstream proxy, request with site credentials, CONNECT + MITM request, 407, 403, 502 error responses, /configz; everything printed, logged, served or returned is scanned for each secret in raw, URL-escaped, quoted and base64 (std, url, 3 alignments) forms and for 24-character windows of key material; non-secret companions must be visible; distinct = (channel, level, format, log target, log-http mode, special character) signatures")
 	root := run.RNG()
 	n := run.N(36, 1300)
 	var wg sync.WaitGroup
@@ -117,6 +120,7 @@ func oneConfig(run *lib.Run, r *lib.RNG, idx int) {
 	c.format = []string{"text", "json"}[(idx/12)%2]
 	c.logFile = (idx/3)%2 == 1
 	c.logHTTP = []string{"none", "short-url", "url", "errors"}[(idx/2)%4]
+	c.multiHTTP = idx%3 == 1
 	c.mitm = idx%3 != 2
 	c.tlsProto = idx%5 == 4
 	dir := filepath.Join(run.Work, fmt.Sprintf("cfg%d", idx))
@@ -163,7 +167,11 @@ func oneConfig(run *lib.Run, r *lib.RNG, idx int) {
 		"log-level":       {c.level},
 		"log-format":      {c.format},
 		"log-http":        {c.logHTTP},
+
 		"http-dial-attempts": {"1"},
+	}
+	if c.multiHTTP {
+		opts["log-http"] = []string{"proxy:" + c.logHTTP, "api:" + []string{"headers", "body"}[idx%2]}
 	}
 	data := func(pem []byte) string { return "data:" + base64.StdEncoding.EncodeToString(pem) }
 	opts["cacert-file"] = []string{data(ca.CertPEM)} // public material: not scanned for
@@ -361,6 +369,9 @@ func scan(run *lib.Run, c *conf, idx int, texts map[string]string, startupOnly b
 	run.Count("configs_scanned", 1)
 	for where, text := range texts {
 		for _, s := range c.secrets {
+			if c.multiHTTP && s.role == "api" && where != "configz" && !strings.HasPrefix(where, "response:") {
+				continue // the API module logs headers in this configuration: its own Authorization is outside the statement
+			}
 			for form, v := range s.forms() {
 				run.Count("secret_occurrences_checked", 1)
 				if strings.Contains(text, v) {
